@@ -3,28 +3,28 @@
 import json, subprocess
 
 PROPS = {
- "C01": ("differential: generated formula texts vs an independent reference lexer/parser/truth-table semantics (proptest byte tapes, shrinking) + sampled CLI runs",
-         "Exploration by generated formula texts over the whole language against an independent truth-table semantics written from the README; every assignment of every generated formula is compared by variable NAME. Sampling, not proof: bounded by <= 8 names and depth <= 7.",
+ "C01": ("differential: generated formula texts vs an independent reference lexer/parser/truth-table semantics (proptest byte tapes, shrinking) + sampled CLI runs + wide texts (padded formulas over 60..600 names, counter-reachability fixed points with up to 2^11 applications, counting over 14..23 literals) vs the same reference semantics evaluated on the harness's own reference ROBDD package",
+         "Exploration by generated formula texts over the whole language against an independent truth-table semantics written from the README; every assignment of every generated formula is compared by variable NAME. Sampling, not proof: bounded by <= 16 names and depth <= 7 for the truth-table oracle; wide texts are bounded by diagram size, not by the number of names.",
          "trusts the harness's reference front-end (rlex/rparse/rsem, unit-tested on README identities and the repo's *_is_true files) and the regex crate's \\w/\\d classes"),
- "C02": ("bounded-exhaustive (all functions of <= 4 variables x 6 construction routes x id maps) + random operation histories; oracle = independently built plain ROBDD",
+ "C02": ("bounded-exhaustive (all functions of <= 4 variables x 6 construction routes x id maps) + random operation histories; oracle = independently built plain ROBDD + wide cases (functions over up to 257 / 857 variables, ids up to the top of usize) differentially against the harness's own node-based reference ROBDD package (canonical shape, ==, hash) + constructed equal-hash sub-diagrams",
          "Every function of k<=3 (quick) / 4 (thorough) variables is built by six routes in shared and fresh environments and compared with `==`/hash against a reduced ordered diagram made of plain enum values; random histories check canonical form and `== iff same table` pairwise. Exhaustive within the bound, sampled beyond.",
          "trusts the harness walker (table of a diagram) and plain::build; hash inequality is not asserted"),
- "C03": ("bounded-exhaustive (all pairs of 2-var / 3-var functions x 7 connectives x id layouts) + random operands; oracle = pointwise bit operations on truth tables",
+ "C03": ("bounded-exhaustive (all pairs of 2-var / 3-var functions x 7 connectives x id layouts) + random operands; oracle = pointwise bit operations on truth tables + wide cases (functions over up to 257 / 857 variables, ids up to the top of usize) differentially against the harness's own node-based reference ROBDD package + constructed equal-hash operands",
          "All operand pairs over small variable sets under equal/nested/overlapping/disjoint/interleaved/gapped supports and all argument positions, every assignment compared; operands re-compared structurally after the call.",
          "operands are interned through mk_choice (not through the operation under test)"),
- "C04": ("bounded-exhaustive (all 3-var / 4-var functions x all short variable lists) + random; oracle = or/and of cofactors on truth tables; metamorphic list permutations",
+ "C04": ("bounded-exhaustive (all 3-var / 4-var functions x all short variable lists) + random; oracle = or/and of cofactors on truth tables; metamorphic list permutations + wide cases (functions over up to 257 / 857 variables, ids up to the top of usize) differentially against the harness's own node-based reference ROBDD package (lists of up to several hundred variables) + padded formula texts with quantifiers on variables beyond id 64 / 128 / 256",
          "Exhaustive over functions and variable lists within the bound (empty, repeated, absent, above/inside/below the support), plus the same through the formula language.",
          "truth-table quantifier oracle is harness code"),
- "C05": ("bounded-exhaustive (lists of <= 3 operands from the 16 two-variable functions x all bounds incl. i64 extremes x all forms) + random lists; oracle = arithmetic count per assignment",
+ "C05": ("bounded-exhaustive (lists of <= 3 operands from the 16 two-variable functions x all bounds incl. i64 extremes x all forms) + random lists; oracle = arithmetic count per assignment + wide cases (functions over up to 257 / 857 variables, ids up to the top of usize) differentially against the harness's own node-based reference ROBDD package (lists of up to 13 / 16 operands, bounds incl. i64::MIN / MAX; text lists of 14..23 literals)",
          "All five comparison kinds, constant and list right-hand sides, API and language level, negative / oversized / huge constants.",
-         "API bounds restricted to n with n +/- len inside i64 (the property's domain)"),
- "C06": ("generated monotone fixed-point bodies (polarity-disciplined tape decoder + constructed multi-step chains) vs Knaster-Tarski enumeration of ALL candidate functions; alpha-renaming metamorphic check; bodies reaching the bound name through a definition vs the inlined text; model-based fp(a,t)",
+         "API bounds cover i64::MIN .. i64::MAX since defect F12 (overflow near i64::MIN) was repaired"),
+ "C06": ("generated monotone fixed-point bodies (polarity-disciplined tape decoder + constructed multi-step chains) vs Knaster-Tarski enumeration of ALL candidate functions; alpha-renaming metamorphic check; bodies reaching the bound name through a definition vs the inlined text; model-based fp(a,t); counter-reachability fixed points needing up to 2^9+1 (thorough 2^11+1) applications and padded wide formulas vs the reference semantics on reference diagrams",
          "For every generated body all 2^(2^k) candidate functions (k<=3, thorough 4) are enumerated: the answer must be a fixed point below every pre-fixed point (lfp) / above every post-fixed point (gfp). Termination observed through the fp iteration-limit hook.",
          "syntactic monotonicity is sufficient, not necessary; inner fixed points inside T use the reference Kleene evaluator"),
- "C07": ("bounded-exhaustive (all functions of <= 4 variables x id maps) + random functions + CLI spawns; oracle = cube/containment/support checks on truth tables",
+ "C07": ("bounded-exhaustive (all functions of <= 4 variables x id maps) + random functions + CLI spawns; oracle = cube/containment/support checks on truth tables + wide cases (functions over up to 257 / 857 variables, ids up to the top of usize) differentially against the harness's own node-based reference ROBDD package (models of 65+ literals, infer around word boundaries) + constructed equal-hash sub-diagrams",
          "model(f) is checked to be the false leaf iff unsatisfiable, else a single cube inside f over f's support; infer against the implication oracle; `rsbdd -m -t` prints one satisfying row.",
          "CLI binary built from the working tree into /verif/target/repo"),
- "C08": ("bounded-exhaustive token sequences (33-token alphabet, length <= 4/5; reduced alphabets longer) and character strings + random/mutated texts; differential vs reference LL(1) parser",
+ "C08": ("bounded-exhaustive token sequences (33-token alphabet, length <= 4/5; reduced alphabets longer) and character strings + random/mutated texts; differential vs reference LL(1) parser; sentences blown up to 300 KiB / 1.2 MiB by every kind of separator",
          "Every token sequence up to the length bound over the full token alphabet is parsed by both front-ends: reject/accept must agree and accepted trees must be equal; lexer compared token by token on all short strings.",
          "the reference grammar was derived from README and by reading the parser; agreement on the unchanged tree is partly by construction"),
  "C09": ("generated formulas biased to bound/free name reuse x optional orderings, plus wide texts of 60..300 names; oracle = textbook FV on the reference tree",
@@ -33,34 +33,34 @@ PROPS = {
  "C10": ("generated formulas x option battery on the real binary; oracle = reference table; partition/coverage check of printed rows; channel and -b metamorphic equality; wide formulas (1..200 free variables) judged symbolically and by exact counting of covered assignments",
          "Every printed row is checked against the reference function on every total assignment it covers; coverage per filter; byte-identical stdout across channels and repetition counts. For wide formulas: row value decided symbolically, rows pairwise disjoint, sum of 2^#Any equal to 2^n / #sat / #unsat.",
          "spawns /verif/target/repo/release/rsbdd built from the working tree"),
- "C11": ("generated formulas x orderings (API NamedSymbol vectors and CLI files); oracle = by-name table equality, expected numbering, -r/-o round trip",
+ "C11": ("generated formulas x orderings (API NamedSymbol vectors and CLI files); oracle = by-name table equality, expected numbering, -r/-o round trip; ordering files of 1..64 KiB (120..8190 names)",
          "Meaning preserved by name under permutations/subsets/supersets/gaps; ids and path order as prescribed; exported order fed back reproduces the identical table.",
          "API orderings have distinct names and ids"),
- "C12": ("random bytes / token soups / mutated formulas / structured corpus, in-process under catch_unwind and through the binary; oracle = no panic, exit status",
+ "C12": ("random bytes / token soups / mutated formulas / structured corpus, in-process under catch_unwind and through the binary; oracle = no panic, exit status; wide formulas (33..520 variables) through twelve output-option sets",
          "Robustness over generated byte strings and option sets within the stated domain (depth <= 200, 64 KiB, convergent fixed points); a panic anywhere on the input path is a violation.",
          "a time-out is inconclusive, never a violation; -g excluded; whether a non-monotone fixed point converges is decided by the reference semantics"),
- "C13": ("model-based operation histories (proptest tapes) over one environment; oracle = table model + fresh-environment replay + pointer-identity invariants",
+ "C13": ("model-based operation histories (proptest tapes) over one environment; oracle = table model + fresh-environment replay + pointer-identity invariants; wide histories of near-copy expressions (cubes of up to 257 / 857 levels) in environments pre-filled with 2^16 / 2^17+ nodes vs the reference ROBDD package",
          "After every step of generated histories: table model, structural identity with a fresh environment, old handles unchanged, unique-table invariants (Rc::ptr_eq), DOT id consistency.",
          "handles given to an environment were produced by it; shared formulas use one common ordering"),
- "C14": ("bounded-exhaustive diagrams (all functions of <= 3/4 variables x filters) + random diagrams and syntax trees; round-trip through a reader for the DOT language; diagrams also as plain values / nodes of another environment",
+ "C14": ("bounded-exhaustive diagrams (all functions of <= 3/4 variables x filters) + random diagrams and syntax trees; round-trip through a reader for the DOT language; diagrams also as plain values / nodes of another environment; parse trees of lists with 40..300 (thorough 65537) entries",
          "Exports are read back: evaluated under every assignment, compared node/edge-wise between filters, and syntax trees rebuilt into terms and compared with the reference tree.",
          "the DOT reader handles graph/digraph, node/edge/attribute statements, chains, quoted/bare/numeric ids, comments (no subgraphs, no HTML ids); parse-tree labels of an unknown vocabulary are judged structurally (one-to-one, payload, spelling)"),
  "C15": ("configuration enumeration over board sizes + exhaustive/generated assignments; oracle = brute-force queens enumerator and classifier; end-to-end rsbdd solve",
          "Exact model-set equality for n <= 4/5 over all 2^(n*n) assignments, classification agreement on all n^n row placements, attacking pairs and near-misses for larger n, and `rsbdd -t -ft` listing exactly the reference solutions for n <= 6/7.",
          "n <= 8 (quick) / 10 (thorough)"),
- "C16": ("generated edge lists x flags on the real binary; oracle = brute-force clique enumeration vs reference truth-table models of the emitted text",
+ "C16": ("generated edge lists x flags on the real binary; oracle = brute-force clique enumeration vs reference truth-table models of the emitted text; graphs of 17..33 vertices: the emitted text evaluated on reference diagrams vs the clique family built as a reference diagram",
          "The emitted formula's models over all vertex subsets must be exactly the (maximum) cliques; thorough exhausts all directed graphs on 3 vertices.",
-         "vertex names are identifiers; <= 6 vertices"),
- "C17": ("generated puzzle texts on the real binary; oracle = independent sudoku back-tracker; exact model enumeration for r <= 2, classification sampling for r = 3",
+         "vertex names are identifiers; <= 6 vertices for the truth-table oracle, <= 33 for the reference-diagram oracle"),
+ "C17": ("generated puzzle texts on the real binary; oracle = independent sudoku back-tracker; exact model enumeration for r <= 2, classification sampling for r = 3, 4, 5 (thorough 6)",
          "All models of the emitted constraints equal the reference grids one-to-one for r <= 2; for r = 3 solutions satisfy and near-misses falsify the formula exactly as the reference classifier says.",
          "givens are digits 1..r^2"),
- "C18": ("exhaustive small requests + random requests, three fresh samples each; oracle = per-sample invariants, convert model, brute-force colouring/clique search",
+ "C18": ("exhaustive small requests + random requests, three fresh samples each; oracle = per-sample invariants, convert model, brute-force colouring/clique search; --colors on graphs of 12..200 vertices with planted answers (back-tracking search for the covering clique)",
          "Only invariants that must hold for every random sample are judged; infeasible requests must be refused without output; --colors against brute force.",
          "the distribution of samples is not judged"),
  "C19": ("model-based, bounded-exhaustive: every reachable pair of reference states x every next operation (b = 1, 2) + random histories; oracle = BTreeSet; element widths up to 64 bits against finite / co-finite reference sets",
          "Exhaustive over all reference state pairs and operations for b <= 2, every membership query asked twice after every step; random longer histories for b <= 3 with three sets; for b in {4..64} membership is queried at every mentioned element, its one-bit neighbours, its mirror image, 0 and 2^b-1.",
          "sets of a history share one environment"),
- "C20": ("bounded-exhaustive (all functions of <= 4 variables x 3 filters) + random + CLI spawns; oracle = truth-table containment",
+ "C20": ("bounded-exhaustive (all functions of <= 4 variables x 3 filters) + random + CLI spawns; oracle = truth-table containment + wide cases (functions over up to 257 / 857 variables) with soundness decided on the harness's own reference ROBDD package + constructed equal-hash sub-diagrams",
          "Direction of the filter checked on truth tables for every function within the bound; result ordered/reduced/within support/shared nodes.",
          "none beyond the harness walker"),
 }
